@@ -58,6 +58,10 @@ StatusLineViolations(rel, obs) ==
             (IF obs.outcome = "err" THEN {} ELSE {"C15.mismatched_reason_phrase_accepted"})
       [] rel = "unregistered_code" -> (IF obs.outcome = "err" THEN {} ELSE {"C15.unknown_status_accepted"})
       [] OTHER -> {}                                   \* letter case of the phrase: the statement is silent
+\* a multipart/byteranges document with one structural element removed (brk); "exact" is the uncorrupted anchor
+RespStructViolations(brk, obs) ==
+    IF brk = "exact" THEN (IF obs.outcome = "ok" THEN {} ELSE {"C15.valid_multipart_rejected"})
+    ELSE (IF obs.outcome = "err" THEN {} ELSE {"C15.broken_multipart_" \o brk \o "_accepted"})
 RespRejectViolations(cls, obs) ==
     IF cls \in {"unknown_status", "phrase_mismatch", "no_opening_boundary", "no_closing_boundary", "part_without_blank_line"}
     THEN (IF obs.outcome = "err" THEN {} ELSE {"C15." \o cls \o "_accepted"})
